@@ -88,6 +88,17 @@ def run_case(case):
             r.settle(fire_due=True)
             end = dead_at
     else:
+        # the first KEEPALIVE may come some time after the OPEN (within the hold time counted from the OPEN)
+        kd = case.get('ka_delay', '0')
+        if H > 0 and kd != '0':
+            d = max(0.0, min(gap_value(kd, H, eps), H - min(eps, H / 10.0)))
+            r.advance_to(t_oc + d)
+            r.settle(fire_due=True)
+            if sim.state != 'OPENCONFIRM':
+                out.append(('early-end:%s:openconfirm-wait' % sim.state, 'state %s at t=%s while waiting %ss (< H=%s) for the first KEEPALIVE'
+                            % (sim.state, r.now, d, H)))
+                return out
+            last = r.now
         r.peer_send(c, rc.keepalive())
         r.settle(fire_due=True)
         if sim.state != 'ESTABLISHED':
@@ -187,6 +198,7 @@ arrival = st.tuples(st.sampled_from(GAPS + ['H-e', 'H', '2H/3', 'H/2']), st.samp
                     st.sampled_from(['msg', 'timer'])).map(list)
 case_strategy = st.fixed_dictionaries({
     'conf': st.sampled_from(HOLDS), 'prop': st.sampled_from(HOLDS), 'conf_ka': st.sampled_from([60, 60, 1, 7, 600]),
+    'ka_delay': st.sampled_from(['0', '0', 'small', 'H/3', 'H/2', '2H/3', 'H-e']),
     'phase': st.sampled_from(['est', 'est', 'est', 'est', 'opensent', 'openconfirm']),
     'eps': st.sampled_from([0.001, 1.0]),
     'schedule': st.one_of(st.lists(arrival, max_size=8), st.lists(arrival, min_size=15, max_size=30))})
@@ -218,7 +230,7 @@ def run_shard(spec, seed, col, tier):
                     for sc in (scheds if phase == 'est' else [[]]):
                         for eps in (0.001, 1.0):
                             case = {'conf': conf, 'prop': prop, 'phase': phase, 'eps': eps, 'schedule': sc,
-                                    'conf_ka': 60 if eps == 1.0 else 600}
+                                    'conf_ka': 60 if eps == 1.0 else 600, 'ka_delay': '0' if eps == 1.0 else 'H/2'}
                             res = run_case(case)
                             col.case(case, nontrivial(case), labels=['grid', 'phase:' + phase])
                             for sig, detail in res:
